@@ -23,7 +23,8 @@ TBASE = 1577836800
 FN2TEST = {"gross": "gross_range_test", "spike": "spike_test", "roc": "rate_of_change_test",
            "dens": "density_inversion_test", "flat": "flat_line_test", "probe": "verif_probe_test",
            "boom": "verif_boom_test", "notest": "not_a_test", "nomod": "some_test",
-           "valid": "valid_range_test", "press": "pressure_increasing_test", "probe2": "verif_probe_test"}
+           "valid": "valid_range_test", "press": "pressure_increasing_test", "probe2": "verif_probe_test",
+           "needpos": "verif_needpos_test"}
 FN2MOD = {"valid": "axds", "press": "argo", "probe2": "argo", "nomod": "not_a_module"}
 MODTEST2FN = {(FN2MOD.get(k, "qartod"), v): k for k, v in FN2TEST.items()}
 
@@ -70,12 +71,19 @@ def verif_probe_test2(inp, tinp=None, zinp=None, lat=None, lon=None, tag=0):
 verif_probe_test2.__name__ = "verif_probe_test"
 
 
+def verif_needpos_test(inp, lat, lon, tag=0):
+    """a test that REQUIRES positions (no defaults): it cannot run on a stream that supplies none"""
+    return np.ma.ones(len(inp), dtype="uint8")
+
+
 def install():
     import logging
     logging.disable(logging.CRITICAL)      # ioos_qc logs every skipped / failed call; the events carry that information
     import ioos_qc.argo as argo
     qartod.verif_probe_test = verif_probe_test
     qartod.verif_boom_test = verif_boom_test
+    qartod.verif_needpos_test = verif_needpos_test
+    verif_needpos_test.__module__ = "ioos_qc.qartod"
     argo.verif_probe_test = verif_probe_test2
     verif_probe_test.__module__ = "ioos_qc.qartod"
     verif_boom_test.__module__ = "ioos_qc.qartod"
@@ -119,7 +127,7 @@ def entry_kwargs(e):
         return kw
     if fn == "flat":
         return {"suspect_threshold": p["st"], "fail_threshold": p["ft"], "tolerance": rat(p["tol"])}
-    if fn in ("probe", "probe2", "boom"):
+    if fn in ("probe", "probe2", "boom", "needpos"):
         return {"tag": 1}
     if fn == "valid":
         return {"valid_span": [None if p["lo"] == NA else float(p["lo"]), None if p["hi"] == NA else float(p["hi"])],
@@ -349,6 +357,9 @@ def run_frontend(frontend, table, config, workdir, form="iso", max_orders=3, rng
     stale = table if frontend.endswith("+stale") else None
     # "<front end>+again": the same stream object and the same Config object are run twice; the SECOND run is recorded
     again = frontend.endswith("+again")
+    # "<front end>+reuse": the Config object has been run before, on a richer table (the same rows with a time, depth and
+    # position column each); the run on the actual table is recorded
+    reuse = frontend.endswith("+reuse")
     frontend = frontend.split("+")[0]
     del PROBE_LOG[:]
     del RUN_LOG[:]
@@ -386,8 +397,16 @@ def run_frontend(frontend, table, config, workdir, form="iso", max_orders=3, rng
         return ev
     results, exc = [], ""
     try:
-        stream = make_stream(frontend, table, config, workdir)
         cfg = Config(config_dict(config, form, stale=stale))
+        if reuse:
+            n = len(table["t"])
+            rich = dict(table, hastime=True, z=table["z"] or [i % 4 for i in range(n)],
+                        lat=table["lat"] or [(3 * i) % 7 for i in range(n)], lon=table["lon"] or [(5 * i) % 9 for i in range(n)])
+            for r in make_stream(frontend, rich, config, workdir).run(cfg):
+                pass
+            del PROBE_LOG[:]
+            del RUN_LOG[:]
+        stream = make_stream(frontend, table, config, workdir)
         if again:
             for r in stream.run(cfg):
                 pass
@@ -478,3 +497,71 @@ def run_frontend(frontend, table, config, workdir, form="iso", max_orders=3, rng
             c["accL"], c["accD"], c["dkeys"] = [], [], []
         ev.append(c)
     return ev
+
+
+def run_split(table, config, workdir, form="iso"):
+    """XarrayStream over a dataset whose variables sit on TWO dimensions: every stream but "b" and every axis variable on
+    `time` (as in the "xarray" front end), stream "b" on a dimension of its own that is one element longer and has no time,
+    depth or position variable. For the run that is two tables: the library looks inputs up per variable. -> two event
+    lists (one per table), each load / yields / endrun / collect; configurations without windows only."""
+    install()
+    n = len(table["t"])
+    bvals = list(table["data"]["b"]) + [table["data"]["b"][0]]
+    tb_a = dict(table, data={k: v for k, v in table["data"].items() if k != "b"})
+    tb_b = {"t": list(range(n + 1)), "hastime": False, "data": {"b": bvals}, "z": [], "lat": [], "lon": []}
+    cfg_a = [{"win": c["win"], "entries": [e for e in c["entries"] if e["stream"] != "b"]} for c in config]
+    cfg_b = [{"win": c["win"], "entries": [e for e in c["entries"] if e["stream"] == "b"]} for c in config]
+    del PROBE_LOG[:]
+    del RUN_LOG[:]
+    results, exc = [], ""
+    try:
+        ds = dataset(tb_a, True)
+        ds["b"] = (("obs2",), fl(bvals))
+        cfg = Config(config_dict(config, form))
+        for r in XarrayStream(ds).run(cfg):
+            results.append(r)
+    except Exception as e:  # noqa: BLE001
+        exc = type(e).__name__ + ": " + str(e)[:100]
+    probes, runlog, pi = list(PROBE_LOG), list(RUN_LOG), 0
+    parts = {"a": ([], []), "b": ([], [])}
+    for k, r in enumerate(results):
+        sid, mod, meth = runlog[k] if k < len(runlog) else (r.stream_id, "?", "?")
+        fn = fn_of(mod, meth)
+        ok = len(r.results) > 0
+        y = {"ev": "yield", "stream": r.stream_id, "fn": fn,
+             "subset": [i + 1 for i, b in enumerate(np.asarray(r.subset_indexes).ravel().tolist()) if b],
+             "ok": ok, "flags": absflags(r.results[0].results) if ok else [],
+             "data": absarr(r.data), "t": absarr(r.tinp), "z": absarr(r.zinp), "lat": absarr(r.lat), "lon": absarr(r.lon)}
+        if fn in ("probe", "probe2") and ok:
+            pr = probes[pi] if pi < len(probes) else None
+            pi += 1
+            y["probe"] = ({"x": absarr(pr["inp"]), "t": absarr(pr["tinp"]), "z": absarr(pr["zinp"]),
+                           "lat": absarr(pr["lat"]), "lon": absarr(pr["lon"])} if pr else
+                          {"x": [], "t": [], "z": [], "lat": [], "lon": []})
+        key = "b" if r.stream_id == "b" else "a"
+        parts[key][0].append(y)
+        parts[key][1].append(r)
+    out = []
+    for key, tb, cf in (("a", tb_a, cfg_a), ("b", tb_b, cfg_b)):
+        ys, rs = parts[key]
+        ev = [{"ev": "load", "table": tb, "config": cf, "frontend": "xarray_split"}] + ys + [{"ev": "endrun", "exc": exc}]
+        if not exc:
+            c = {"ev": "collect", "order": list(range(1, len(rs) + 1)), "direct": False, "first": True, "exc": "",
+                 "accL": [], "accD": [], "dkeys": []}
+            try:
+                for cr in collect_results(list(rs), how="list"):
+                    c["accL"].append({"stream": cr.stream_id, "fn": fn_of(cr.package, cr.test), "flags": absflags(cr.results),
+                                      "data": absarr(cr.data), "t": absarr(cr.tinp), "z": absarr(cr.zinp),
+                                      "lat": absarr(cr.lat), "lon": absarr(cr.lon)})
+                dct = collect_results(list(rs), how="dict")
+                c["dkeys"] = sorted(str(k) for k in dct)
+                for sid, mods in dct.items():
+                    for mod, tests in mods.items():
+                        for t, v in tests.items():
+                            c["accD"].append({"stream": sid, "fn": fn_of(mod, t), "flags": absflags(v)})
+            except Exception as e:  # noqa: BLE001
+                c["exc"] = type(e).__name__
+                c["accL"], c["accD"], c["dkeys"] = [], [], []
+            ev.append(c)
+        out.append(ev)
+    return out
